@@ -231,7 +231,7 @@ theorem spellsV_dec (c : Cfg) (hs : c.env.flat = true) (fld : Field) (vv : PVal)
       simp [finishMapProp, Outcome.bind, closeOk]
     | scalar k => simp [SpellsV] at h
     | «enum» ref => simp [SpellsV] at h
-    | any pb => simp [fieldSimple] at hfs
+    | any pb => cases vv <;> simp [SpellsV] at h
     | array item => cases vv <;> simp [SpellsV] at h
   | arr xs =>
     cases fld with
@@ -251,7 +251,7 @@ theorem spellsV_dec (c : Cfg) (hs : c.env.flat = true) (fld : Field) (vv : PVal)
       simp only [createField_fresh props p st hsn hgb, Outcome.bind, hne, itemCheck_simple item hi]
       rw [listStart_fresh p { m := st.m, seen := p.jsonName :: st.seen } hg, hdec]
       simp [finishArrayProp, Outcome.bind, closeOk]
-    | any pb => simp [fieldSimple] at hfs
+    | any pb => cases vv <;> simp [SpellsV] at h
     | _ => cases vv <;> simp [SpellsV] at h
   | str s raw =>
     cases fld with
@@ -260,32 +260,32 @@ theorem spellsV_dec (c : Cfg) (hs : c.env.flat = true) (fld : Field) (vv : PVal)
       obtain ⟨n, pfx, opts, rfl, hfind, _⟩ := valOk_enum _ _ ref vv hok
       simp only [SpellsV, hfind] at h
       exact Dec_enum c ref pfx opts n s raw hfind h
-    | any pb => simp [fieldSimple] at hfs
+    | any pb => cases vv <;> simp [SpellsV] at h
     | _ => simp [SpellsV] at h
   | num x =>
     cases fld with
     | scalar k => exact Dec_scalar_tok c k vv _ (by simpa [SpellsV] using h)
-    | any pb => simp [fieldSimple] at hfs
+    | any pb => cases vv <;> simp [SpellsV] at h
     | _ => simp [SpellsV] at h
   | bool b =>
     cases fld with
     | scalar k => exact Dec_scalar_tok c k vv _ (by simpa [SpellsV] using h)
-    | any pb => simp [fieldSimple] at hfs
+    | any pb => cases vv <;> simp [SpellsV] at h
     | _ => simp [SpellsV] at h
   | null =>
     cases fld with
     | scalar k => simp [SpellsV, scalarSpells] at h
-    | any pb => simp [fieldSimple] at hfs
+    | any pb => cases vv <;> simp [SpellsV] at h
     | _ => simp [SpellsV] at h
   | bad =>
     cases fld with
     | scalar k => simp [SpellsV, scalarSpells, goTok] at h
-    | any pb => simp [fieldSimple] at hfs
+    | any pb => cases vv <;> simp [SpellsV] at h
     | _ => simp [SpellsV] at h
   | raw bs =>
     cases fld with
     | scalar k => simp [SpellsV, scalarSpells, goTok] at h
-    | any pb => simp [fieldSimple] at hfs
+    | any pb => cases vv <;> simp [SpellsV] at h
     | _ => simp [SpellsV] at h
 termination_by sizeOf t
 
